@@ -344,8 +344,9 @@ func (c09Prop) Execute(p *Plan, run *Run) any {
 			}
 			if pendBefore == 0 {
 				run.Probes.Inc("flush-with-nothing-pending")
-				if len(w.Buf) != before {
-					fail("c09/empty-flush-wrote", what, fmt.Sprintf("op %d: Flush with nothing pending wrote %d bytes", opi, len(w.Buf)-before), opi)
+				// (a header written lazily at this point is fine; any block is not)
+				if emitted > 0 {
+					fail("c09/empty-flush-wrote", what, fmt.Sprintf("op %d: Flush with nothing pending emitted %d block(s)", opi, emitted), opi)
 					return nil
 				}
 			}
